@@ -340,6 +340,29 @@ Section Proofs.
       rewrite IH by (intros I; apply N; simpl; auto). simpl. rewrite <- app_assoc. reflexivity.
   Qed.
 
+  Lemma split_slash_aux_app : forall x rest cur, ~ In ch_slash x ->
+    split_slash_aux (x ++ ch_slash :: rest) cur = (rev cur ++ x) :: split_slash_aux rest [].
+  Proof.
+    induction x as [|c x IH]; intros rest cur N; simpl.
+    - rewrite app_nil_r. reflexivity.
+    - destruct (Z.eqb_spec c ch_slash) as [E|NE]; [exfalso; apply N; simpl; auto|].
+      rewrite IH by (intros I; apply N; simpl; auto). simpl. rewrite <- app_assoc. reflexivity.
+  Qed.
+
+  (** [strings.Split(strings.Join(l, "/"), "/") = l] for slash-free components:
+      the recursion of [createDataset] on the re-joined tail of the path is the
+      recursion on the tail of the component list ([create_dataset_rec]). *)
+  Lemma split_join_slash : forall l, l <> [] -> Forall (fun c => ~ In ch_slash c) l ->
+    split_slash (join_slash l) = l.
+  Proof.
+    induction l as [|x l IH]; intros NE F; [congruence|].
+    inversion F as [|y r Nx Fl]; subst. destruct l as [|y l].
+    - simpl. unfold split_slash. rewrite split_slash_aux_noslash by assumption. reflexivity.
+    - change (join_slash (x :: y :: l)) with (x ++ ch_slash :: join_slash (y :: l)).
+      unfold split_slash. rewrite split_slash_aux_app by assumption. simpl rev. simpl app at 1.
+      f_equal. apply IH; [discriminate | assumption].
+  Qed.
+
   Lemma h5name_eqb_neq : forall a b, a <> b -> h5name_eqb a b = false.
   Proof. intros a b N. destruct (h5name_eqb a b) eqn:E; auto. apply h5name_eqb_eq in E. contradiction. Qed.
 
